@@ -209,7 +209,11 @@ CHECKS = {
        "steps), C08_serial_nonempty(_prefix) (over the whole output "
        "stream of every program without shutdown the start/fin records of the wrapped function strictly alternate, "
        "a call is in flight exactly when the daemon is inside it, and no call ever received an empty set) and the "
-       "step theorem C08_never_empty; debounce timing (no call while arrivals are < timeout apart, one call at last "
+       "step theorem C08_never_empty; C08_burst_delivered_together (Buffer/Burst.lean, invariant B: for immediately available "
+       "arguments and no forced flush, after every prefix of the inputs and every number of moves after it, whenever the "
+       "daemon is about to call the function nothing is left in the queue, every element submitted so far is in the "
+       "round's input set or already delivered, the latest submission is at least timeout old and the next move is the "
+       "call with exactly that set - a burst cannot be split over several calls); debounce timing (no call while arrivals are < timeout apart, one call at last "
        "arrival + timeout containing the burst) is tied to the code by the virtual-time differential comparing "
        "every call's instant and contents over arrival grids straddling the timeout, with a quiet-period / burst "
        "monitor (no call inside a quiet period, call at last arrival + timeout, burst not split, burst not offered "
